@@ -57,9 +57,17 @@ type FuncContract struct {
 	Asserts     []*SiteAssert
 	Lets        []LetDef
 	Relies      []*Clause
+	Ghosts      []GhostUpdate
 	File        string
 	Line        int
 	Used        bool
+}
+
+type GhostUpdate struct {
+	Map  string
+	Var  string
+	Expr *SExpr
+	Text string
 }
 
 type PredDef struct {
@@ -74,6 +82,7 @@ type Contracts struct {
 	Funcs   map[string]*FuncContract // by full key
 	Preds   map[string]*PredDef      // by pkgpath + "." + name, and by bare name
 	Expect  map[string]int           // property -> minimum obligations
+	GhostMaps map[string]bool
 	Files   []string
 	Sources map[string]string // file -> which source (repo|mirror)
 }
@@ -81,7 +90,7 @@ type Contracts struct {
 var clauseKeywords = map[string]bool{
 	"pred": true, "func": true, "prop": true, "requires": true, "ensures": true, "modifies": true,
 	"loop": true, "pure": true, "inline": true, "trusted": true, "assert": true, "assume": true, "after": true,
-	"let": true, "rely": true, "expect-obligations": true, "iface": true, "nobody": true,
+	"let": true, "rely": true, "expect-obligations": true, "iface": true, "nobody": true, "ghostmap": true, "ghost": true,
 }
 
 var tagRe = regexp.MustCompile(`^\[([^\]]*)\]\s*`)
@@ -114,7 +123,7 @@ var contractPkgs = map[string]string{
 }
 
 func LoadContracts(repo, mirror string) (*Contracts, error) {
-	c := &Contracts{Funcs: map[string]*FuncContract{}, Preds: map[string]*PredDef{}, Expect: map[string]int{}, Sources: map[string]string{}}
+	c := &Contracts{Funcs: map[string]*FuncContract{}, Preds: map[string]*PredDef{}, Expect: map[string]int{}, Sources: map[string]string{}, GhostMaps: map[string]bool{}}
 	var suffixes []string
 	for s := range contractPkgs {
 		suffixes = append(suffixes, s)
@@ -209,6 +218,12 @@ func (c *Contracts) parseFile(path, pkgPath string) error {
 				n, _ := strconv.Atoi(f[2])
 				c.Expect[f[0]] = n
 			}
+			continue
+		case "ghostmap":
+			for _, w := range strings.Fields(r.text) {
+				c.GhostMaps[w] = true
+			}
+			cur = nil
 			continue
 		case "pred":
 			// name(params) = body
@@ -307,6 +322,17 @@ func (c *Contracts) parseFile(path, pkgPath string) error {
 				}
 				cur.Modifies = append(cur.Modifies, e)
 			}
+		case "ghost":
+			// ghost P[k] = expr
+			m := regexp.MustCompile(`^(\w+)\[(\w+)\]\s*=\s*(.*)$`).FindStringSubmatch(r.text)
+			if m == nil {
+				return fmt.Errorf("%s:%d: malformed ghost update (want: ghost M[k] = expr)", path, r.line)
+			}
+			e, err := ParseSpec(m[3])
+			if err != nil {
+				return fmt.Errorf("%s:%d: %v", path, r.line, err)
+			}
+			cur.Ghosts = append(cur.Ghosts, GhostUpdate{Map: m[1], Var: m[2], Expr: e, Text: r.text})
 		case "let":
 			eq := strings.Index(r.text, "=")
 			if eq < 0 {
